@@ -211,7 +211,7 @@ Definition apply (p : pattern) (m : list (str * str)) : str + list str :=
 Definition is_scheme_char (b : N) : bool := is_alnum b || (b =? 43) || (b =? 45) || (b =? 46).
 
 Definition is_path_char (b : N) : bool :=
-  is_alnum b || existsb (N.eqb b) [36; 45; 95; 46; 43; 33; 42; 39; 40; 41; 44; 58; 64; 38; 61; 59].
+  is_alnum b || existsb (N.eqb b) [36; 45; 95; 46; 126; 43; 33; 42; 39; 40; 41; 44; 58; 64; 38; 61; 59].
 
 (* many0_count(path_char): consumed prefix, rest *)
 Fixpoint take_path_chars (s : str) : str * str :=
@@ -326,7 +326,7 @@ Fixpoint unapply_parts (parts : list str) (segs : list seg) (m : list (str * str
       if s_param s then
         match pd with
         | [] => None
-        | _ => unapply_parts parts' segs' (bind (pct_decode (s_text s)) pd m)
+        | _ => unapply_parts parts' segs' (bind (s_text s) pd m)
         end
       else if str_eqb pd (pct_decode (s_text s)) then unapply_parts parts' segs' m
       else None
@@ -363,7 +363,8 @@ Fixpoint amb_segs (a b : list seg) : bool :=
   match a, b with
   | [], [] => true
   | x :: a', y :: b' =>
-      if negb (s_param x) && negb (s_param y) && negb (str_eqb (s_text x) (s_text y)) then false
+      if negb (s_param x) && negb (s_param y)
+         && negb (str_eqb (pct_decode (s_text x)) (pct_decode (s_text y))) then false
       else amb_segs a' b'
   | _, _ => false
   end.
